@@ -686,8 +686,35 @@ func (w *World) opVariation(step int) {
 		}
 	}
 	ent := base.ent
-	what := w.t.Choose("ops", "var.what", 5)
+	what := w.t.Choose("ops", "var.what", 8)
+	if what >= 5 && (ent == nil || len(w.keys) < 2 && what != 6) {
+		what -= 4 // the correlated changes need caller entropy (and a second key)
+	}
+	xor32 := func(a, b, c []byte) []byte {
+		out := make([]byte, 32)
+		for i := range out {
+			out[i] = a[i] ^ b[i] ^ c[i]
+		}
+		return out
+	}
 	switch what {
+	case 5: // another key, and the entropy changed by exactly the XOR difference of the keys
+		nk := (base.key + 1 + w.t.Choose("ops", "var.key", len(w.keys)-1)) % len(w.keys)
+		ent = xor32(ent, w.keys[base.key].dBytes, w.keys[nk].dBytes)
+		q.key = nk
+	case 6: // another digest, and the entropy changed by exactly the XOR difference of the digests
+		d := append([]byte(nil), base.digest...)
+		bit := w.t.Choose("ops", "var.bit", 256)
+		d[bit/8] ^= 1 << (bit % 8)
+		ent = xor32(ent, base.digest[:32], d[:32])
+		q.digest = d
+		w.digests = append(w.digests, d)
+	case 7: // another key, and the digest changed by exactly the XOR difference of the keys
+		nk := (base.key + 1 + w.t.Choose("ops", "var.key", len(w.keys)-1)) % len(w.keys)
+		d := append([]byte(nil), base.digest...)
+		copy(d, xor32(base.digest[:32], w.keys[base.key].dBytes, w.keys[nk].dBytes))
+		q.key, q.digest = nk, d
+		w.digests = append(w.digests, d)
 	case 0: // nothing changes: must be byte-identical
 	case 1: // different key
 		if len(w.keys) > 1 {
@@ -724,17 +751,78 @@ func (w *World) opVariation(step int) {
 	w.runECDSA(step, q)
 }
 
+// opWipeKeyBuffer: the caller overwrites the byte slice it once passed to
+// NewPrivateKey (keys are immutable: nothing may change), then signs the
+// most recent event of that key again with identical inputs.
+func (w *World) opWipeKeyBuffer(step int) {
+	var cands []int
+	for i, k := range w.keys {
+		if k.supplied != nil {
+			cands = append(cands, i)
+		}
+	}
+	if len(cands) == 0 {
+		w.opVariation(step)
+		return
+	}
+	ki := cands[w.t.Choose("ops", "wipe.key", len(cands))]
+	sg := w.keys[ki]
+	switch w.t.Choose("ops", "wipe.how", 3) {
+	case 0:
+		for i := range sg.supplied {
+			sg.supplied[i] = 0
+		}
+	case 1:
+		for i := range sg.supplied {
+			sg.supplied[i] ^= 0xff
+		}
+	default:
+		copy(sg.supplied, w.t.Bytes("ops", "wipe.rnd", len(sg.supplied)))
+	}
+	sg.supplied = nil
+	w.r.Fault("caller_overwrites_key_buffer")
+	w.r.Hist("%d caller overwrites the buffer it passed to NewPrivateKey for key %d", step, ki)
+	if !bytes.Equal(sg.priv.Bytes(), sg.dBytes) {
+		w.r.Violate("C09", "key-follows-caller-buffer", "NewPrivateKey", step, "after the caller overwrote the buffer it had passed to NewPrivateKey, key %d reads %x instead of %x", ki, sg.priv.Bytes(), sg.dBytes)
+	}
+	// sign the latest event of this key again: identical inputs, identical output
+	for i := len(w.events) - 1; i >= 0; i-- {
+		ev := w.events[i]
+		if ev.key != ki {
+			continue
+		}
+		q := &ecdsaReq{key: ki, api: apiSignRaw, optsDesc: "-", hashSize: -1, encValid: true, digest: ev.digest, reader: rdDevice}
+		if ev.ent == nil {
+			q.reader = rdRFC6979
+		} else {
+			q.dev = kernel.DevCfg{Payload: kernel.PayScripted, Script: ev.ent, ErrAt: -1}
+		}
+		w.runECDSA(step, q)
+		w.r.Probe("resigned_after_key_buffer_wipe")
+		return
+	}
+}
+
 // ---------------------------------------------------------------- Schnorr (C14)
 
 func (w *World) genMsg(stream string) []byte {
 	var n int
-	switch w.t.Choose(stream, "msg.lenkind", 6) {
+	switch w.t.Choose(stream, "msg.lenkind", 8) {
 	case 0:
 		n = 0
 	case 1, 2:
 		n = 32
 	case 3:
 		n = 1 + w.t.Choose(stream, "msg.len", 31)
+	case 6:
+		// around the SHA-256 block and padding boundaries
+		n = []int{55, 56, 63, 64, 65, 119, 120, 127, 128, 129, 183, 184, 191, 192, 193}[w.t.Choose(stream, "msg.blk", 15)]
+	case 7:
+		// long messages, just below / at / just above the sizes a fixed
+		// internal buffer would have (header bytes subtracted)
+		base := []int{1024, 2048, 4096, 8192}[w.t.Choose(stream, "msg.base", 4)]
+		n = base - 136 + w.t.Choose(stream, "msg.delta", 145)
+		w.r.Probe("schnorr_long_message")
 	default:
 		n = w.t.Choose(stream, "msg.len", 201)
 	}
